@@ -232,9 +232,10 @@ pub fn run(prop: &str, tier: Tier) -> i32 {
         "C13" => scenarios::c13(tier),
         "C04" => scenarios::c04(tier),
         "C05" => scenarios::c05(tier),
-        "C10" => scenarios::c10(tier),
+        // (C10 and C16: the scenario sets that used to be the thorough tier's run in seconds)
+        "C10" => scenarios::c10(Tier::Thorough, tier == Tier::Thorough),
         "C12" => scenarios::c12(tier),
-        "C16" => scenarios::c16(tier),
+        "C16" => scenarios::c16(Tier::Thorough, tier == Tier::Thorough),
         _ => panic!("no e1 scenarios for {}", prop),
     };
     // debugging aid: VERIF_E1_ONLY=<substring> restricts the run to matching scenarios
